@@ -301,7 +301,7 @@ def det_case(ctx, r):
         # one (the statement does not fix the interpolation rule)
         q_lo = np.quantile(scores, 1 - level, method="lower")
         q_hi = np.quantile(scores, 1 - level, method="higher")
-        slack = 1e-10 * (1 + abs(q_lo) + abs(q_hi))
+        slack = 1e-10 * (abs(q_lo) + abs(q_hi)) + 1e-300  # relative only: scores scale with the unit
         want = np.quantile(scores, 1 - level)
         if thr is None or not (q_lo - slack <= thr <= q_hi + slack):
             ctx.violation(sub, "tuned-quantile", f"{label}: tuned threshold_={thr} is not a (1-level) "
